@@ -14,10 +14,11 @@ META = dict(
     id='C13',
     level='proof',
     technique='Coq proof (the transcribed date_interval_t state machine and interval_posts::flush refine a simple specification: consecutive steps of one duration from an anchor, clipped to [from, to)) + differential correspondence of the extracted model against ledger',
-    level_text='Theorems in coq/Properties/Properties_C13.v state, for all durations of at least one unit, all from/to bounds, all week starts and both --align-intervals settings, that adding a duration strictly increases a date (incl. month ends and leap days, boost month arithmetic modelled in Model/PeriodCalendar.v), that the intervals the model of date_interval_t (stabilize / resolve_end / operator++ / find_period, times.cc:1133-1413) steps through are exactly the specification sequence s_0 = anchor, s_{i+1} = s_i + duration clipped to [from, to), that these intervals are consecutive, disjoint, one duration long except where clipped, aligned to month/quarter/year starts or the configured week day, that every date within the bounds lies in exactly one of them, and that the model of interval_posts::flush puts every posting into the group whose interval contains its date, so the group subtotals add up to the total. The model is tied to the code by comparing, on thousands of generated period expressions and journals, the output of `ledger period` and of `reg --period` (row dates, end labels, exact subtotals) with the extracted model. Bounds written in a user --input-date-format: the directive lists from which the date reader derives whether a format has a year, month and day are re-read from src/times.cc on every run (both sites must agree), and a theorem states that a bound written in a format with %Y/%y/%F, %m/%b/%B/%F and %d/%F reaches the interval object as the date the text names. --group-by: whether interval_posts::clear() empties all_posts is re-read from src/filters.h; when it does, each group is reported from its own postings only (theorem), while it does not the model reproduces the carry-over (finding F125, refutation theorem).',
-    level_note='Trusted: Coq kernel; extraction + OCaml driver and the python harness for the correspondence; boost::gregorian day-number/ymd conversion and month arithmetic modelled in Model/PeriodCalendar.v (validated against ledger and python datetime); the period-expression parser and the from/to limit predicates added by report_t::normalize_period are glue (the harness renders the expression text and filters the postings by the bounds; the oracle checks that filter against ledger\'s own `reg --begin --end`). Amounts are positive so that no group displays as zero.',
+    level_text='Theorems in coq/Properties/Properties_C13.v state, for all durations of at least one unit, all from/to bounds, all week starts and both --align-intervals settings, that adding a duration strictly increases a date (incl. month ends and leap days, boost month arithmetic modelled in Model/PeriodCalendar.v), that the intervals the model of date_interval_t (stabilize / resolve_end / operator++ / find_period, times.cc:1133-1413) steps through are exactly the specification sequence s_0 = anchor, s_{i+1} = s_i + duration clipped to [from, to), that these intervals are consecutive, disjoint, one duration long except where clipped, aligned to month/quarter/year starts or the configured week day, that every date within the bounds lies in exactly one of them, and that the model of interval_posts::flush puts every posting into the group whose interval contains its date, so the group subtotals add up to the total. The model is tied to the code by comparing, on thousands of generated period expressions and journals, the output of `ledger period` and of `reg --period` (row dates, end labels, exact subtotals) with the extracted model. Bounds written in a user --input-date-format: the directive lists from which the date reader derives whether a format has a year, month and day are re-read from src/times.cc on every run (both sites must agree), and a theorem states that a bound written in a format with %Y/%y/%F, %m/%b/%B/%F and %d/%F reaches the interval object as the date the text names. The period EXPRESSION: the lexer (words split at blanks, folded to lower case, looked up in the keyword table) and the parser loop (named forms, every N units, every unit, from/since, to/until, in, a bare date) are modelled in Model/PeriodExpr.v; the keyword table of lexer_t::next_token and the three token -> duration switches of date_parser_t::parse are re-read from src/times.cc on every run (Gen/PeriodWords.v), and theorems state that each form the property names denotes the stated duration in any letter case, that `every 0 ..` is refused, and that duration, from and to clauses mean the same in any order (the interval object is init d from to, the object of all other theorems). In every reg/period case the model is given the expression TEXT, not the reading of it by the harness; the token kinds `ledger period` lists are compared with the lexer of the model, and a stream of expressions that must be refused is compared too. --group-by: whether interval_posts::clear() empties all_posts is re-read from src/filters.h; when it does, each group is reported from its own postings only (theorem), while it does not the model reproduces the carry-over (finding F125, refutation theorem).',
+    level_note='Trusted: Coq kernel; extraction + OCaml driver and the python harness for the correspondence; boost::gregorian day-number/ymd conversion and month arithmetic modelled in Model/PeriodCalendar.v (validated against ledger and python datetime); reading a date word (the date reader, C14) is glue: the harness hands the model the day each date word names; the from/to limit predicates added by report_t::normalize_period are glue (the driver filters the postings by the bounds of the parsed interval; the oracle checks that filter against ledger\'s own `reg --limit`). Not modelled in the expression: month and weekday names, this/next/last, today/tomorrow/yesterday, N units ago/hence, a bare integer, the `-` range. Amounts are positive so that no group displays as zero.',
     design_ref='DESIGN.md section 7 C13, section 6.5',
     assumptions=['from < to when both are given', 'postings carry no auxiliary dates; one account and one commodity per report so that a row is one interval',
+                 '--start-of-week is given as a number 0-6 or a day name; a day name that is not all lower case is ignored without a message (finding F13a: the model is given the week start ledger ends up with, the oracle the one the command line names)',
                  'posting amounts are positive (a zero group subtotal is hidden by the register report unless --empty)',
                  '--input-date-format values use only the directives %Y %y %m %b %B %d %F, start with a digit and contain no blank (a period date word must); observed on the unchanged tree and not claimed: the reader traits do not know %e, %j, %D or %h, so `monthly from 10-03-2021` under --input-date-format %e-%m-%Y is taken as from 2021/03/01'],
 )
@@ -255,8 +256,26 @@ def gen_case(rng, exhaustive=None):
     case['from'] = dn(f) if f else None
     case['to'] = dn(t) if t else None
     case['group'] = False
+    if rng.random() < (0.3 if q == 'w' else 0.05):
+        spell_week_start(rng, case)
     set_format(rng, case, None)
     return case
+
+
+WDAYS = ['sunday', 'monday', 'tuesday', 'wednesday', 'thursday', 'friday', 'saturday']
+
+
+def spell_week_start(rng, case):
+    """--start-of-week takes a day NAME as well as a number.  sow = the day the command line names (what the
+    property calls the configured first day of the week); sow_eff = what report_t::normalize_options makes of the
+    text: string_to_day_of_week compares it AS WRITTEN with sun/sunday/0 ... sat/saturday/6 and a text it does
+    not know leaves the default (Sunday) in place, without a message - the model is given sow_eff"""
+    name = WDAYS[case['sow']]
+    word = rng.choice([name, name[:3]])
+    if rng.random() < 0.3:
+        word = rng.choice([word.capitalize(), word.upper()])
+    case['sow_text'] = word
+    case['sow_eff'] = case['sow'] if word == word.lower() else 0
 
 
 # ---- running ledger ------------------------------------------------------------------------------
@@ -282,7 +301,9 @@ def fmt_args(case):
 def reg_args(case, jpath):
     a = ['-f', jpath] + fmt_args(case) + ['reg', '^Assets:A', '--period', case['expr'], '--now', '2021/06/15',
                                           '--date-format', '%Y-%m-%d', '--format', ROWFMT]
-    if case['sow'] != 0 or case.get('sow_explicit'):
+    if case.get('sow_text'):
+        a += ['--start-of-week', case['sow_text']]
+    elif case['sow'] != 0 or case.get('sow_explicit'):
         a += ['--start-of-week', str(case['sow'])]
     if case['align']:
         a += ['--align-intervals']
@@ -388,7 +409,7 @@ def model_tail(case):
 def model_reg_line(cid, case, posts):
     """all postings of the account in date order (stable, as std::stable_sort); the driver limits them to the
     bounds the model derives from the text; with --group-by: one list per payee, in payee order, journal order"""
-    head = model_head('greg' if case.get('group') else 'reg', cid, case) + [case['sow'], case['align'], case['empty']] + model_tail(case)
+    head = model_head('greg' if case.get('group') else 'reg', cid, case) + [case.get('sow_eff', case['sow']), case['align'], case['empty']] + model_tail(case)
     if case.get('group'):
         gs = []
         for payee in sorted({p[2] for p in posts}):
@@ -526,6 +547,7 @@ def canon_rows(rows, impl):
 def full_case(case, journal):
     return dict(expr=case['expr'], sow=case['sow'], align=case['align'], empty=case['empty'], q=case['q'], n=case['n'],
                 fmt=case.get('fmt'), bfmt=case.get('bfmt'), group=bool(case.get('group')),
+                sow_text=case.get('sow_text'), sow_eff=case.get('sow_eff'),
                 **{'from': case['from'], 'to': case['to']}, journal=journal['text'])
 
 
@@ -548,7 +570,7 @@ def oracle_rows(case, rows, posts, lab, viol):
 
 def check_reg(res, case, journal, impl, plain, model):
     cid = '%s@j%d' % (case['expr'], journal['idx'])
-    opts = 'sow=%d align=%d empty=%d fmt=%s%s' % (case['sow'], case['align'], case['empty'], case.get('fmt'), ' group-by' if case.get('group') else '')
+    opts = 'sow=%s align=%d empty=%d fmt=%s%s' % (case.get('sow_text') or case['sow'], case['align'], case['empty'], case.get('fmt'), ' group-by' if case.get('group') else '')
     full = full_case(case, journal)
     res.evaluations += 1
     res.traces += 1
@@ -608,7 +630,13 @@ def check_reg(res, case, journal, impl, plain, model):
             res.samples.append(dict(expr=case['expr'], options=opts, rows=['%s..%s %s' % (s, e, a) for s, e, a, _ in rows[:4]]))
     # oracle
     def viol(key, desc, observed, required):
+        if case.get('sow_text') and case.get('sow_eff') != case['sow']:
+            # whatever the symptom: the week start named on the command line is not the one the report uses
+            key = 'reg:start-of-week:day-name-not-in-lower-case-ignored'
+            desc = '--start-of-week %s is ignored without a message; %s' % (case['sow_text'], desc)
         res.violations.append(dict(key=key, desc='%s (%s %s)' % (desc, case['expr'], opts), case=full, observed=observed, required=required))
+    if case.get('sow_text'):
+        res.count('reg:start-of-week-as-a-day-name%s' % ('' if case['sow_text'] == case['sow_text'].lower() else ':not-lower-case'))
     if plain is None:
         viol('reg:plain-report-failed', 'the unperiodised report failed', None, 'a report')
         return
@@ -811,7 +839,7 @@ def run(ctx, n_override=None):
     res = lib.Result()
     res.rule = ('period expressions (named forms, `every N units` with N in 1..12, `every unit`; from/since and to/until '
                 'bounds on month ends, leap days, period boundaries +-1 and random dates; week starts 0-6; --align-intervals, '
-                '--empty; --input-date-format with month names, other field orders, separators and two-digit years, the bounds '
+                '--empty; --start-of-week as a number or a day name; clauses in any order, keywords in any letter case; expressions that must be refused; --input-date-format with month names, other field orders, separators and two-digit years, the bounds '
                 'and the journal dates written in it; --group-by payee) x journals of 1-120 postings dated over 2019-2025; '
                 '`ledger period` output and `reg --period` '
                 'rows compared with the model; non-trivial = at least two intervals reported; distinct by expression, '
